@@ -183,6 +183,11 @@ func c08Batch(r *rig.SignerRig, kind string, n int, real bool, viaHandler bool) 
 			dom := make([]byte, 32)
 			dom[0] = 7
 			dom[5] = byte(i % 3)
+			if n >= 3 && i%5 == 1 {
+				// Every fifth entry is refused by the rules (the beacon-attester domain type is not for this endpoint):
+				// the entries around it must still carry their own verdicts and signatures.
+				dom[0] = 1
+			}
 			// Neighbours share the data and differ in the domain; every third entry shares the domain.
 			d := &rules.SignData{Domain: dom, Data: c08Root(byte(1 + (i/2)%250))}
 			d.Data[31] = byte(i >> 9)
